@@ -25,6 +25,8 @@ CHECKS = {
  "C20": ("for every assignment of 64-bit log times to multi-chunk files (every overlap pattern of the chunk ranges) the solver shows that after every step of an index-based read the number of decompressed chunk buffers held is at most the overlap depth of the ranges (1 in file order); a validating lexer keeps one chunk buffer of at most twice the largest chunk and a non-validating one none; attachments of the enumerated sizes stream through writer and lexer with no single library allocation above 33000 bytes", "DESIGN.md §4 C20"),
  "C05": ("the bytes the real writer delivers are decoded by a strict decoder written from the specification only and executed symbolically: grammar (magic, header, data section, chunk contents, definitions before uses, grouped summary, summary offsets, footer) and exactness of every chunk index, message index entry, attachment/metadata index, summary offset, footer field, chunk uncompressed size and chunk time range are shown for every field value and every combination of the symbolic Skip* flags on the enumerated templates", "DESIGN.md §4 C05"),
  "C06": ("with the CRC as an uninterpreted fold, the stored data-section, summary, chunk and attachment checksums are shown equal to the fold over exactly the byte ranges the specification defines (and zero / still-correct when disabled) for every field value on the enumerated templates; any difference in which bytes are fed is a solver counterexample replayed with the real CRC-32", "DESIGN.md §4 C06"),
+ "C11": ("files produced by a specification-only encoder with a record of symbolic unknown opcode (0x10..0xFF) and symbolic body inserted at each of 8 legal position classes, and with symbolic extra bytes appended to every extensible record (offsets recomputed), are shown to be read by the lexer, the non-indexed iterator, Info, index-entry access and Messages() in three orders as exactly the logical content, for every value of content, opcode and inserted bytes", "DESIGN.md §4 C11"),
+ "C12": ("the same logical content (all values symbolic) laid out by a specification-only encoder under the enumerated layouts - chunk partitions, none/xor per chunk, schema/channel placement and repetition, 12 orders of the summary groups, each optional part present or absent - is shown to be returned identically by lexer, non-indexed iterator, Info, index-entry access and Messages() in three orders; every encoder output is itself validated by the specification decoder", "DESIGN.md §4 C12"),
 }
 
 NA = {
